@@ -373,9 +373,13 @@ pub fn run(r: &mut Runner) {
     let (inv, bfs) = crate::props::c06::reachable_invalid(if quick { 1 } else { 3 });
     r.transitions += bfs as u64;
     let mut all = valid.clone();
+    // organic operands: chain results (one API call from the C01 seeds)
+    let org = crate::organic::states(1);
+    all.extend(org.iter().step_by(if quick { 6 } else { 2 }).cloned());
+    crate::grid::dedup(&mut all);
     all.extend(inv.iter().cloned());
     let n = all.len();
-    r.notes.push(format!("{} valid operands and {} reachable invalid/non-finite representatives; all {} ordered pairs x 5 operators x 16 spellings; identities; {} unary trait entry points per operand", valid.len(), inv.len(), n * n, 45));
+    r.notes.push(format!("{} valid operands (incl. a subset of the one-call chain states) and {} reachable invalid/non-finite representatives; all {} ordered pairs x 5 operators x 16 spellings; identities; {} unary trait entry points per operand", n - inv.len(), inv.len(), n * n, 45));
     r.add_sample(json!({"a": show_dd(all[5]), "b": show_dd(all[n / 2]), "spellings": ["a op b", "&a op b", "a op &b", "&a op &b", "a op= b", "a op= &b", "a op f", "...", "f op a", "..."]}));
     let rec = r.recorder();
     r.par("operator spellings + identities", n, (n * n) as u64, |i, l| {
